@@ -553,4 +553,329 @@ theorem inv_reach {s : State} (h : Reach s) : Inv s := by
   | init => exact inv_init
   | step _ st ih => exact inv_step ih st
 
+/-! ### capacities -/
+
+/-- the chunk capacities, in chunk-list order -/
+def caps (cs : List Chunk) : List Nat := cs.map (·.cap)
+
+theorem caps_modify {cs : List Chunk} {k : Nat} {f : Chunk → Chunk} (hf : ∀ c, (f c).cap = c.cap) :
+    caps (cs.modify k f) = caps cs := by
+  apply List.ext_getElem?
+  intro j
+  simp only [caps, List.getElem?_map, List.getElem?_modify]
+  cases cs[j]? with
+  | none => rfl
+  | some c => by_cases h : k = j <;> simp [h, hf]
+
+theorem caps_mark (cs k i t) : caps (mark cs k i t) = caps cs := caps_modify (fun _ => rfl)
+theorem caps_clear (cs k i) : caps (clear cs k i) = caps cs := caps_modify (fun _ => rfl)
+theorem caps_prune (cs t) : caps (cs.map (pruneChunk t)) = caps cs := by
+  simp [caps, pruneChunk, Function.comp_def]
+
+/-- **the capacity rule of `expand_arena`**, on the list of capacities -/
+theorem caps_expand (cs : List Chunk) (g : Growth) :
+    (cs = [] ∧ expand cs g = ([Chunk.fresh INIT_READER_COUNT], .first)) ∨
+    (∃ l x, caps cs = l ++ [x] ∧
+      ((g = .inPlace ∧ (expand cs g).2 = .inPlace ∧ caps (expand cs g).1 = l ++ [x * 2]) ∨
+       (g = .newChunk ∧ (expand cs g).2 = .newChunk ∧ caps (expand cs g).1 = l ++ [x, x * 2]))) := by
+  rcases nil_or_snoc cs with rfl | ⟨l, c, rfl⟩
+  · left; exact ⟨rfl, expand_nil g⟩
+  · right
+    refine ⟨caps l, c.cap, by simp [caps], ?_⟩
+    rw [expand_snoc]
+    cases g with
+    | inPlace => left; simp [caps, Chunk.grow]
+    | newChunk => right; simp [caps, Chunk.fresh]
+
+/-- closed form of the capacities after `n` expansions since the chunk list was last empty -/
+structure CapsOk (l : List Nat) (n : Nat) : Prop where
+  nil_iff : l = [] ↔ n = 0
+  last    : ∀ x, l.getLast? = some x → x = INIT_READER_COUNT * 2 ^ (n - 1)
+  incr    : l.Pairwise (· < ·)
+  pow     : ∀ x ∈ l, ∃ e, e < n ∧ x = INIT_READER_COUNT * 2 ^ e
+
+theorem capsOk_nil : CapsOk [] 0 := by
+  constructor <;> simp
+
+theorem capsOk_first : CapsOk [INIT_READER_COUNT] 1 := by
+  constructor <;> simp
+
+theorem pow_pred {n : Nat} (h : n ≠ 0) : 2 ^ n = 2 ^ (n - 1) * 2 := by
+  cases n with
+  | zero => exact absurd rfl h
+  | succ n => simp [Nat.pow_succ]
+
+theorem capsOk_inplace {l : List Nat} {x n : Nat} (h : CapsOk (l ++ [x]) n) :
+    CapsOk (l ++ [x * 2]) (n + 1) := by
+  obtain ⟨h1, h2, h3, h4⟩ := h
+  have hn : n ≠ 0 := fun hn => by have := h1.mpr hn; simp at this
+  have hx := h2 x (by simp)
+  have hp := List.pairwise_append.mp h3
+  constructor
+  · simp
+  · intro y hy
+    simp only [List.getLast?_concat, Option.some.injEq] at hy
+    subst hy
+    simp only [Nat.add_sub_cancel]
+    rw [pow_pred hn, ← Nat.mul_assoc, ← hx]
+  · apply List.pairwise_append.mpr
+    refine ⟨hp.1, by simp, ?_⟩
+    intro a ha b hb
+    simp only [List.mem_singleton] at hb
+    subst hb
+    have := hp.2.2 a ha x (by simp)
+    omega
+  · intro y hy
+    simp only [List.mem_append, List.mem_singleton] at hy
+    rcases hy with hy | rfl
+    · obtain ⟨e, he, rfl⟩ := h4 y (by simp [hy])
+      exact ⟨e, by omega, rfl⟩
+    · exact ⟨n, by omega, by rw [pow_pred hn, ← Nat.mul_assoc, ← hx]⟩
+
+theorem capsOk_newchunk {l : List Nat} {x n : Nat} (h : CapsOk (l ++ [x]) n) :
+    CapsOk (l ++ [x, x * 2]) (n + 1) := by
+  obtain ⟨h1, h2, h3, h4⟩ := h
+  have hn : n ≠ 0 := fun hn => by have := h1.mpr hn; simp at this
+  have hx := h2 x (by simp)
+  have hpos : 0 < x := by
+    rw [hx]; exact Nat.mul_pos init_reader_count_pos (Nat.pow_pos (by decide))
+  have hp := List.pairwise_append.mp h3
+  have e1 : l ++ [x, x * 2] = (l ++ [x]) ++ [x * 2] := by simp
+  constructor
+  · simp
+  · intro y hy
+    rw [e1, List.getLast?_concat] at hy
+    simp only [Option.some.injEq] at hy
+    subst hy
+    simp only [Nat.add_sub_cancel]
+    rw [pow_pred hn, ← Nat.mul_assoc, ← hx]
+  · rw [e1]
+    apply List.pairwise_append.mpr
+    refine ⟨h3, by simp, ?_⟩
+    intro a ha b hb
+    simp only [List.mem_singleton] at hb
+    subst hb
+    simp only [List.mem_append, List.mem_singleton] at ha
+    rcases ha with ha | rfl
+    · have := hp.2.2 a ha x (by simp); omega
+    · omega
+  · intro y hy
+    rw [e1] at hy
+    simp only [List.mem_append, List.mem_singleton] at hy
+    rcases hy with (hy | rfl) | rfl
+    · obtain ⟨e, he, rfl⟩ := h4 y (by simp [hy])
+      exact ⟨e, by omega, rfl⟩
+    · obtain ⟨e, he, h⟩ := h4 y (by simp)
+      exact ⟨e, by omega, h⟩
+    · exact ⟨n, by omega, by rw [pow_pred hn, ← Nat.mul_assoc, ← hx]⟩
+
+/-- what a successful `register` does to the capacities -/
+theorem register_caps {s s' : State} {t : Nat} {g : Growth} {k i : Nat} {gr : Grew}
+    (hwf : ∀ c ∈ s.chunks, c.WF)
+    (st : step s (.register t g) = some (s', .slot k i gr)) :
+    match gr with
+    | .no => caps s'.chunks = caps s.chunks ∧ s'.nexp = s.nexp
+    | .first => s.chunks = [] ∧ caps s'.chunks = [INIT_READER_COUNT] ∧ s'.nexp = s.nexp + 1
+    | .inPlace => ∃ l x, caps s.chunks = l ++ [x] ∧ caps s'.chunks = l ++ [x * 2] ∧ s'.nexp = s.nexp + 1
+    | .newChunk => ∃ l x, caps s.chunks = l ++ [x] ∧ caps s'.chunks = l ++ [x, x * 2] ∧ s'.nexp = s.nexp + 1 := by
+  simp only [step] at st
+  split at st
+  · simp at st
+  · split at st
+    · split at st
+      · simp at st
+      · next cs k' i' gr' ha =>
+        simp only [Option.some.injEq, Prod.mk.injEq, Out.slot.injEq] at st
+        obtain ⟨rfl, rfl, rfl, rfl⟩ := st
+        obtain ⟨-, -, -, hno, hgr⟩ := arenaAlloc_spec hwf ha
+        simp only [caps_mark]
+        cases gr' with
+        | no => simp [hno rfl]
+        | first =>
+          obtain ⟨he, -⟩ := hgr (by simp)
+          rcases caps_expand s.chunks g with ⟨hnil, hex⟩ | ⟨l, x, hc, h | h⟩
+          · rw [hex] at he; cases he; exact ⟨hnil, by simp [caps, Chunk.fresh], by simp⟩
+          · rw [← he] at h; simp at h
+          · rw [← he] at h; simp at h
+        | inPlace =>
+          obtain ⟨he, -⟩ := hgr (by simp)
+          rcases caps_expand s.chunks g with ⟨hnil, hex⟩ | ⟨l, x, hc, h | h⟩
+          · rw [hex] at he; cases he
+          · rw [← he] at h; exact ⟨l, x, hc, h.2.2, by simp⟩
+          · rw [← he] at h; simp at h
+        | newChunk =>
+          obtain ⟨he, -⟩ := hgr (by simp)
+          rcases caps_expand s.chunks g with ⟨hnil, hex⟩ | ⟨l, x, hc, h | h⟩
+          · rw [hex] at he; cases he
+          · rw [← he] at h; simp at h
+          · rw [← he] at h; exact ⟨l, x, hc, h.2.2, by simp⟩
+    · simp at st
+
+theorem capsOk_step {s s' : State} {op : Op} {out : Out} (hwf : ∀ c ∈ s.chunks, c.WF)
+    (h : CapsOk (caps s.chunks) s.nexp) (st : step s op = some (s', out)) :
+    CapsOk (caps s'.chunks) s'.nexp := by
+  cases op with
+  | register t g =>
+    cases out with
+    | slot k i gr =>
+      have := register_caps hwf st
+      cases gr with
+      | no => simp only at this; rw [this.1, this.2]; exact h
+      | first =>
+        simp only at this
+        obtain ⟨hnil, hc, hn⟩ := this
+        have : s.nexp = 0 := h.nil_iff.mp (by simp [caps, hnil])
+        rw [hc, hn, this]; exact capsOk_first
+      | inPlace =>
+        simp only at this
+        obtain ⟨l, x, hc, hc', hn⟩ := this
+        rw [hc', hn]; rw [hc] at h; exact capsOk_inplace h
+      | newChunk =>
+        simp only at this
+        obtain ⟨l, x, hc, hc', hn⟩ := this
+        rw [hc', hn]; rw [hc] at h; exact capsOk_newchunk h
+    | freed | pruned | unit =>
+      simp only [step] at st
+      split at st
+      · simp at st
+      · split at st
+        · split at st <;> simp at st
+        · simp at st
+  | unregister t =>
+    simp only [step] at st
+    split at st
+    · simp at st
+    · simp only [Option.some.injEq, Prod.mk.injEq] at st
+      obtain ⟨rfl, -⟩ := st
+      simpa [caps_clear] using h
+  | prune t =>
+    simp only [step, Option.some.injEq, Prod.mk.injEq] at st
+    obtain ⟨rfl, -⟩ := st
+    simpa [caps_prune] using h
+  | libInit =>
+    simp only [step, Option.some.injEq, Prod.mk.injEq] at st
+    obtain ⟨rfl, -⟩ := st
+    exact h
+  | libExit =>
+    simp only [step] at st
+    split at st
+    · split at st <;> simp only [Option.some.injEq, Prod.mk.injEq] at st <;> obtain ⟨rfl, -⟩ := st
+      · exact capsOk_nil
+      · exact h
+    · simp at st
+
+theorem capsOk_reach {s : State} (h : Reach s) : CapsOk (caps s.chunks) s.nexp := by
+  induction h with
+  | init => exact capsOk_nil
+  | step hr st ih => exact capsOk_step (inv_reach hr).wf ih st
+
 end UrcuVerif.BpArena
+
+/-! ### registration versus signals -/
+namespace UrcuVerif.BpArena.Sig
+
+def Pc.holdsReg : Pc → Bool
+  | .add | .unlock | .xremove | .xunlock => true
+  | _ => false
+def Pc.holdsInit : Pc → Bool
+  | .initInc | .initUnlock | .xdec | .xinitUnlock => true
+  | _ => false
+def Pc.preAdd : Pc → Bool
+  | .initLock | .initInc | .initUnlock | .lock | .add => true
+  | _ => false
+def Pc.preRemove : Pc → Bool
+  | .xmask | .xlock | .xremove => true
+  | _ => false
+def Pc.postAdd : Pc → Bool
+  | .unlock | .unmask | .cs => true
+  | _ => false
+def Pc.isX : Pc → Bool
+  | .xmask | .xlock | .xremove | .xunlock | .xunmask | .xinitLock | .xdec | .xinitUnlock => true
+  | _ => false
+
+/-- only the last interrupted frame (the thread's normal code) can be on the exit path -/
+def xLast : List Pc → Bool
+  | [] => true
+  | p :: rest => (!p.isX || rest.isEmpty) && xLast rest
+
+inductive Reach (c : Cfg) : State → Prop
+  | init : Reach c init
+  | step {s s' l} : Reach c s → step c s l = some s' → Reach c s'
+
+structure Inv (s : State) : Prop where
+  blk     : s.blocked = s.top.inWindow
+  bel_win : ∀ p ∈ s.below, p.inWindow = false
+  regH    : s.regHeld = s.top.holdsReg
+  initH   : s.initHeld = (s.top.holdsInit || s.below.any Pc.holdsInit)
+  pre_add : s.top.preAdd = true → s.tls = false
+  pre_rm  : s.top.preRemove = true → s.tls = true
+  bel_rm  : ∀ p ∈ s.below, p.preRemove = true → s.tls = true
+  post_add : s.top.postAdd = true → s.tls = true
+  bel_cs  : ∀ p ∈ s.below, p.postAdd = true → s.tls = true
+  regs    : s.regs = s.tls.toNat
+  topX    : s.top.isX = true → s.below = []
+  belX    : xLast s.below = true
+  top_init : (s.top = .initInc ∨ s.top = .initUnlock) → s.below.any Pc.holdsInit = false
+
+theorem inv_init : Inv init := by
+  constructor <;> simp [init, Pc.inWindow, Pc.holdsReg, Pc.holdsInit, Pc.preAdd, Pc.preRemove, Pc.postAdd, Pc.isX, xLast]
+
+macro "sig_tac" : tactic => `(tactic|
+  (constructor <;> simp only [List.mem_cons, List.any_cons, xLast, forall_eq_or_imp] <;>
+   grind [Pc.inWindow, Pc.holdsReg, Pc.holdsInit, Pc.preAdd, Pc.preRemove, Pc.postAdd, Pc.isX, xLast]))
+
+theorem inv_step_signal {s s' : State} (h : Inv s) (st : step real s .signal = some s') : Inv s' := by
+  obtain ⟨h1, h2, h3, h4, h5, h6, h7, h8, h9, h10, h11, h12, h13⟩ := h
+  rcases s with ⟨top, below, blocked, tls, regs, regHeld, initHeld, refs⟩
+  simp only [step] at st
+  split at st
+  · simp at st
+  · obtain rfl := Option.some.inj st
+    cases top <;> sig_tac
+
+theorem inv_step_call {s s' : State} {l : Lbl} (hl : l = .readLock ∨ l = .exit) (h : Inv s) (st : step real s l = some s') : Inv s' := by
+  obtain ⟨h1, h2, h3, h4, h5, h6, h7, h8, h9, h10, h11, h12, h13⟩ := h
+  rcases s with ⟨top, below, blocked, tls, regs, regHeld, initHeld, refs⟩
+  rcases hl with rfl | rfl <;> simp only [step] at st <;> split at st <;> (try (simp at st; done)) <;>
+    (obtain rfl := Option.some.inj st) <;> sig_tac
+
+theorem inv_step_run_a {s s' : State} (hx : s.top.isX = false) (h : Inv s) (st : step real s .run = some s') : Inv s' := by
+  obtain ⟨h1, h2, h3, h4, h5, h6, h7, h8, h9, h10, h11, h12, h13⟩ := h
+  rcases s with ⟨top, below, blocked, tls, regs, regHeld, initHeld, refs⟩
+  cases top <;> (try (simp [Pc.isX] at hx; done)) <;>
+    simp only [step, real, Bool.false_eq_true, ↓reduceIte, false_and] at st <;> (try split at st) <;>
+    (try (simp at st; done)) <;> (obtain rfl := Option.some.inj st) <;> sig_tac
+
+theorem inv_step_run_b {s s' : State} (hx : s.top.isX = true) (h : Inv s) (st : step real s .run = some s') : Inv s' := by
+  obtain ⟨h1, h2, h3, h4, h5, h6, h7, h8, h9, h10, h11, h12, h13⟩ := h
+  rcases s with ⟨top, below, blocked, tls, regs, regHeld, initHeld, refs⟩
+  cases top <;> (try (simp [Pc.isX] at hx; done)) <;>
+    simp only [step, real, Bool.false_eq_true, ↓reduceIte, false_and] at st <;> (try split at st) <;>
+    (try (simp at st; done)) <;> (obtain rfl := Option.some.inj st) <;> sig_tac
+
+theorem inv_step {s s' : State} {l : Lbl} (h : Inv s) (st : step real s l = some s') : Inv s' := by
+  cases l with
+  | signal => exact inv_step_signal h st
+  | readLock => exact inv_step_call (Or.inl rfl) h st
+  | exit => exact inv_step_call (Or.inr rfl) h st
+  | run =>
+    cases hx : s.top.isX with
+    | false => exact inv_step_run_a hx h st
+    | true => exact inv_step_run_b hx h st
+
+theorem inv_reach {s : State} (h : Reach real s) : Inv s := by
+  induction h with
+  | init => exact inv_init
+  | step _ st ih => exact inv_step ih st
+
+theorem reach_of_run {c : Cfg} {s s' : State} {ls : List Lbl} (h : Reach c s)
+    (hr : runLbls c s ls = some s') : Reach c s' := by
+  induction ls generalizing s with
+  | nil => simp only [runLbls, Option.some.injEq] at hr; exact hr ▸ h
+  | cons l ls ih =>
+    simp only [runLbls] at hr
+    split at hr
+    · simp at hr
+    · next s1 h1 => exact ih (Reach.step h h1) hr
+
+end UrcuVerif.BpArena.Sig
